@@ -15,7 +15,7 @@ def cardToks (u : UC) (many cond : Bool) : List Tok :=
   | true, true => [wordTok u ['M', 'C']]
 
 def phraseToks (phrase : Text) : List Tok :=
-  if phrase.isEmpty then [] else [kwTok .PHRASE, ⟨.STRING, '\'' :: (phrase ++ ['\''])⟩]
+  if phrase.isEmpty then [] else [kwTok .PHRASE, ⟨.STRING, strText phrase⟩]
 
 def endToks (u : UC) (e : EndM) : List Tok :=
   cardToks u e.many e.cond ++ wordTok u e.kind :: lparenTok ::
@@ -132,7 +132,8 @@ theorem cardAt_cardToks (u : UC) (many cond : Bool) (r : List Tok) :
     cardAt (cardToks u many cond ++ r) = some (cardText many cond, r) := by
   cases many <;> cases cond <;> simp [cardToks, cardAt, cardText, mkTok_M, mkTok_MC]
 
-theorem stripEnds_phrase (p : Text) : stripEnds ('\'' :: (p ++ ['\''])) = p := stripEnds_quoted '\'' p
+theorem stripEnds_phrase (p : Text) : unescapeQ (stripEnds (strText p)) = p := by
+  rw [strText, stripEnds_quoted, unescapeQ_escapeQ]
 
 /-- an association end followed by `TO` or `;` -/
 theorem endAt_roundtrip (u : UC) (e : EndM) (next : Tok) (rest : List Tok)
